@@ -31,12 +31,14 @@ def demo(path):
 
 
 def do_import(pid, src):
-    for k in (1, 2, 3):
+    for k in (1, 2, 3, 4, 5, 6):
         pf = os.path.join(src, "patch%d.diff" % k)
         if not os.path.exists(pf):
             continue
         sid = "%s-%d" % (pid, k)
         dst = os.path.join(ROOT, "seeded", sid)
+        if os.path.exists(os.path.join(dst, "patch.diff")) and "--force" not in sys.argv:
+            continue
         assert clean(), "/repo has uncommitted changes"
         rc, out = sh(["git", "-C", REPO, "apply", "--check", pf])
         if rc != 0:
